@@ -169,6 +169,13 @@ def binop(it, op, a, b, node):
     if op == "Mult" and isinstance(a, (AStr,)) and isinstance(b, int):
         return AStr.make(a.pos * b)
     if op == "Mod" and isinstance(a, str):
+        vals = b if isinstance(b, tuple) else (b,)
+        if all(isinstance(v, (str, int, float, bool)) or v is None for v in vals) and not isinstance(b, dict):
+            # concrete operands: CPython's own answer
+            try:
+                return a % b
+            except (TypeError, ValueError) as e:
+                it.may_raise(type(e).__name__, node, str(e), certain=True)
         raise _CE("printf-style formatting")
     if op == "BitAnd" and isinstance(a, frozenset) and isinstance(b, frozenset):
         return a & b
@@ -835,6 +842,20 @@ def it_symbolic_key(it, table, key, node, default=_RAISE_KEYERROR):
         it.may_raise("KeyError", node, f"key {known!r}", certain=True, witness=known)
     if hasattr(th, "register_keyset"):
         th.register_keyset(id(table), keys)
+    if len(keys) > 512 and hasattr(th, "register_keyset"):
+        # a registry-sized table (thousands of bank codes / BICs) asked for the text under validation: one path for "listed" (the entry itself
+        # is not followed), one for the miss; the path condition carries the membership in the key set as a finite language
+        miss = Sym("in", key, ("keys", id(table)))
+        c = it.choose(2, "large table")
+        if c == 0:
+            th.assume(miss, True)
+            it.assumptions.append((miss, True))
+            return Unknown("entry of a registry-sized table")
+        th.assume(miss, False)
+        it.assumptions.append((miss, False))
+        if default is not _RAISE_KEYERROR:
+            return default
+        it.may_raise("KeyError", node, f"key {key!r} not in table", certain=True, witness=key)
     feasible = None
     if hasattr(th, "feasible_keys"):
         feasible = th.feasible_keys(key, keys)
